@@ -665,6 +665,14 @@ func TestCheck(t *testing.T) {
 			}
 		}
 	}
+	// ... and a P-256 log key whose public point has a coordinate with a leading zero octet (log id = SHA-256 of
+	// the DER SubjectPublicKeyInfo, fixed-width coordinates), on the reduced shape set
+	shortKey := pki.LoadKey("p256-shortcoord")
+	for _, s := range w.shapes {
+		if reduced(s, th) && s.val == "utc" {
+			jobs = append(jobs, job{s: s, form: s.id % 2, lk: shortKey, clk: s.id % 4, hist: []step{{}}, phase: "S"})
+		}
+	}
 	nS := len(jobs)
 	// ---- phase H: all histories of depth 3 on the reduced shape set
 	var red []*shape
